@@ -136,6 +136,13 @@ def _run_linpol(case):
     # norm of the polarization does not matter
     f2 = _calc_field(det, s, th, dict(o, illum_polarization=[3.7 * a, 3.7 * b])).values
     resid["pol_norm_invariant@" + t] = relmax(f2, fab)
+    # the same polarization written in the other accepted forms: 3 components (z = 0), tuple / list / ndarray, any norm
+    k = [0.01, 1.0, 2.5, 40.0][int(abs(a * 1000)) % 4]
+    forms = [(k * a, k * b, 0), [k * a, k * b, 0.0], np.array([k * a, k * b, 0.0]), np.array([k * a, k * b]), (a, b, 0.0)]
+    worst = 0.0
+    for pf in forms:
+        worst = max(worst, relmax(_calc_field(det, s, th, dict(o, illum_polarization=pf)).values, fab))
+    resid["pol_forms@" + t] = worst
     return {"resid": resid, "flags": {}, "fmax": fnum(float(np.abs(fab).max())), "qeps1": cfg["theory"].get("kw", {}).get("qeps1", 1e-5)}
 
 
@@ -169,7 +176,8 @@ def _run_multi(case):
     wl, scaling, noise, nidx, rad = shuffled(wl), shuffled(scaling), shuffled(noise), shuffled(nidx), shuffled(rad)
     wl_arg = wl if form["wl"] == "dict" else as_array(wl, labs if form["wl"] == "array" else perm)
     if form["pol"] == "dict":
-        pol_arg = {l: tuple(v) for l, v in shuffled(pol).items()}
+        # two- and three-component vectors of arbitrary norm mean the same direction
+        pol_arg = {l: (tuple(v) if i % 2 else (2.5 * v[0], 2.5 * v[1], 0.0)) for i, (l, v) in enumerate(shuffled(pol).items())}
     else:
         pol_arg = xr.concat([to_vector(pol[l]) for l in perm], xr.DataArray(perm, dims="illumination", name="illumination"))
     n_arg = nidx if form["n"] == "dict" else (as_array(nidx, perm) if form["n"] == "array_perm" else nidx[labs[0]])
@@ -217,7 +225,7 @@ def judge(case, obs):
     out = []
     for k, v in obs["resid"].items():
         base, t = k.split("@")
-        tol = {"superposition": 1e-12, "super_holo": 1e-12, "pol_linear": 1e-10, "pol_norm_invariant": 1e-12,
+        tol = {"superposition": 1e-12, "super_holo": 1e-12, "pol_linear": 1e-10, "pol_norm_invariant": 1e-12, "pol_forms": 1e-12,
                "channel_holo": 1e-12, "channel_field": 1e-12, "channel_intensity": 1e-12}[base]
         if t == "Multisphere":
             tol = max(tol, 3 * math.sqrt(obs.get("qeps1", 1e-5)))
